@@ -45,9 +45,12 @@ def cases(tier, seed):
     n = 70 if tier == "quick" else 8000
     sizes = [6, 8, 12, 20, 40, 80, 150, 300, 600, 1200, 2500]
     for i in range(n):
-        fam = str(rng.choice(["voronoi", "voronoi", "merged", "polyhedron", "cubed_sphere", "latlon_global", "latlon_patch", "clustered", "sample"]))
+        fam = str(rng.choice(["voronoi", "voronoi", "merged", "polyhedron", "cubed_sphere", "latlon_global", "latlon_patch", "clustered", "sample", "fine_patch"]))
         s = int(rng.integers(0, 2**31 - 1))
-        if fam == "sample":  # real meshes from the sample files
+        if fam == "fine_patch":  # high-resolution regional patches: faces of metres to kilometres
+            d = gen.random_mesh(rng, 60 if tier == "quick" else 300, allow_partial=False, families=["fine_patch"])
+            d["ops"] = [o for o in d["ops"] if o[0] == "shrink"]
+        elif fam == "sample":  # real meshes from the sample files
             d = gen.random_mesh(rng, 120 if tier == "quick" else 800, allow_partial=False, families=["sample"])
             d["ops"] = []
         elif fam == "voronoi":
@@ -70,8 +73,9 @@ def cases(tier, seed):
             d = {"family": fam, "n": int(rng.choice([20, 60, 150])), "seed": s}
         else:
             d = {"family": fam, "ne": int(rng.integers(2, 12))}
-        d["ops"] = [["rot", int(rng.integers(0, 10**6))]] if (rng.random() < 0.5 and fam not in ("latlon_global", "latlon_patch", "sample")) else d.get("ops", [])
-        yield {"kind": "mesh", "mesh": d, "tseed": int(rng.integers(0, 10**6)), "all_rules": bool(i % 4 == 0), "source": "face_vertices_xyz" if i % 3 == 2 else "topology"}
+        d["ops"] = [["rot", int(rng.integers(0, 10**6))]] if (rng.random() < 0.5 and fam not in ("latlon_global", "latlon_patch", "sample", "fine_patch")) else d.get("ops", [])
+        yield {"kind": "mesh", "mesh": d, "tseed": int(rng.integers(0, 10**6)), "all_rules": bool(i % 4 == 0), "source": "face_vertices_xyz" if i % 3 == 2 else "topology",
+               "radius": float(rng.choice([1.0, 1.0, 0.5, 0.999, 2.0, 6371.229]))}
 
 
 # --------------------------------------------------------------------------- tables
@@ -118,7 +122,7 @@ def face_class(m):
         P = m.ring_pos(i)
         k = len(f)
         me = max(float(ref.angle(P[j], P[(j + 1) % k])) for j in range(k))
-        info.append((math.degrees(ref.diameter(P)), math.degrees(me), k, ref.is_convex_ccw(P, 1e-10)))
+        info.append((math.degrees(ref.diameter(P)), math.degrees(me), k, ref.is_convex_ccw_rel(P, 1e-6)))
     return info
 
 
@@ -130,13 +134,16 @@ def areas(g, rule=None, order=None, latlon=True):
     return np.array(a, dtype=float)
 
 
+RADIUS = [1.0]  # the Cartesian corners of the current case are given on a sphere of this radius (kilometres, half a unit, ...)
+
+
 def make_grid(m, source):
     """lon/lat explicit topology, or a Cartesian-only source (face-vertex constructor): lon/lat are then derived by the library"""
     if source == "face_vertices_xyz":
         w = max(len(f) for f in m.faces)
         fv = np.full((m.n_face, w, 3), float(ux.INT_FILL))
         for i, f in enumerate(m.faces):
-            fv[i, : len(f)] = m.xyz[f]
+            fv[i, : len(f)] = m.xyz[f] * RADIUS[0]
         return ux.ux().Grid.from_face_vertices(fv, latlon=False)
     return ux.grid_from_mesh(m)
 
@@ -148,6 +155,8 @@ def run_case(ctx, case):
     d = case["mesh"]
     m = gen.build(d)
     rng = np.random.default_rng(case["tseed"])
+    RADIUS[0] = float(case.get("radius", 1.0)) if case.get("source") == "face_vertices_xyz" else 1.0
+    ctx.observe("cartesian_radius_%g" % RADIUS[0])
     ex = exact_areas(m)
     # oracle self-check on a few faces
     for i in rng.choice(m.n_face, size=min(5, m.n_face), replace=False):
@@ -156,7 +165,7 @@ def run_case(ctx, case):
         # used as the reference is not (checked against long-double evaluation)
         k_ = len(P)
         min_edge = min(float(ref.angle(P[j], P[(j + 1) % k_])) for j in range(k_))
-        if ref.is_convex_ccw(P, 1e-10) and abs(ref.poly_area_girard(P) - ex[int(i)]) > 1e-11 + 2e-15 * k_ / max(min_edge, 1e-12):
+        if ref.is_convex_ccw_rel(P, 1e-6) and abs(ref.poly_area_girard(P) - ex[int(i)]) > 1e-11 + 2e-15 * k_ / max(min_edge, 1e-12):
             ctx.harness_error("oracle", RuntimeError("fan and Girard areas disagree: %r vs %r" % (ex[int(i)], ref.poly_area_girard(P))))
             return
     info = face_class(m)
